@@ -612,16 +612,16 @@ static void abf_explore(AbfCase const &c, std::vector<int> const &prefix, int de
 // Part B: multiple-walker metadynamics through files
 // =================================================================================================
 static bool g_meta_nogrids = false;  // explicit hills instead of grids (also in the mirrors of the peers)
-static std::string meta_conf(std::string const &dir, int wi, int upd)
+static std::string meta_conf(std::string const &dir, int wi, int upd, int rfreq = 2)
 {
-  return "colvarsRestartFrequency 2\n"
+  return "colvarsRestartFrequency " + std::to_string(rfreq) + "\n"
          "colvar {\n name d\n width 0.5\n lowerBoundary 0.0\n upperBoundary 12.0\n distance {\n group1 { atomNumbers 1 }\n group2 { atomNumbers 2 }\n }\n}\n"
          "metadynamics {\n name m\n colvars d\n hillWeight 1.0\n hillWidth 1.0\n newHillFrequency 1\n multipleReplicas on\n replicaID w" + std::to_string(wi) +
          "\n" + std::string(g_meta_nogrids ? " useGrids off\n" : "") + " replicasRegistry registry.txt\n replicaUpdateFrequency " + std::to_string(upd) + "\n}\n";
 }
 static double hill_centre(int w, int s, int L) { return 0.25 + 1.0 * ((w * (L - 1) + (s - 1)) % 12); }
 
-struct MetaCase { int n, L, upd; int restart_walker; int extra; bool new_prefix = false; bool nogrids = false; };
+struct MetaCase { int n, L, upd; int restart_walker; int extra; bool new_prefix = false; bool nogrids = false; int rfreq = 2; };  // rfreq: colvarsRestartFrequency (a walker starts a new hills file whenever it rewrites its state)
 
 // multiplicity of every hill (walker p, step s) in walker w's total bias, by probing at the hill centres
 static std::vector<std::vector<int>> meta_multiplicities(Controller &ctl, MetaCase const &c, int w, std::vector<std::vector<bool>> const &deposited, std::string &raw)
@@ -651,7 +651,7 @@ static void meta_run(MetaCase const &c, std::vector<int> const &order, std::stri
   // the walkers run inside `dir` (the replica list files are named relative to the working directory)
   Controller ctl;
   std::vector<WalkerSpec> specs(c.n);
-  for (int i = 0; i < c.n; i++) { specs[i].conf = meta_conf(".", i, c.upd); specs[i].out_prefix = "w" + std::to_string(i); specs[i].temperature = 0; }
+  for (int i = 0; i < c.n; i++) { specs[i].conf = meta_conf(".", i, c.upd, c.rfreq); specs[i].out_prefix = "w" + std::to_string(i); specs[i].temperature = 0; }
   ctl.spawn(specs);
   if (!ctl.fatal.empty()) { fprintf(stderr, "HARNESS-ERROR: %s\n", ctl.fatal.c_str()); exit(2); }
   std::vector<long> next(c.n, 0);
@@ -712,7 +712,7 @@ static void meta_run(MetaCase const &c, std::vector<int> const &order, std::stri
       wr(ctl.w[i].fd, "X"); close(ctl.w[i].fd); ctl.w[i].fd = -1;
       int stt; waitpid(ctl.w[i].pid, &stt, 0);
       WalkerSpec sp;
-      sp.conf = meta_conf(".", i, c.upd);
+      sp.conf = meta_conf(".", i, c.upd, c.rfreq);
       sp.out_prefix = "w" + std::to_string(i) + (c.new_prefix ? "r" : "");  // a restarted job usually writes under a new output prefix
       sp.temperature = 0;
       std::ifstream f(("w" + std::to_string(i) + ".colvars.state").c_str());
@@ -747,7 +747,7 @@ static void meta_run(MetaCase const &c, std::vector<int> const &order, std::stri
     }
     bool synced = (s > 0 && (s % c.upd) == 0);
     if (synced) last_sync[i] = s;
-    if (s > 0 && (s % 2) == 0) rewrote[i] = true;  // colvarsRestartFrequency 2
+    if (s > 0 && (s % c.rfreq) == 0) rewrote[i] = true;  // colvarsRestartFrequency
     check_safety("after step action", synced ? i : -1);
   }
   // completeness at quiescence: every walker takes `extra` more steps (hills beyond L are not deposited at probe points)
@@ -847,6 +847,19 @@ int main(int argc, char **argv)
        }
       }
       }
+    // state files rewritten less often than the walkers synchronise (restart frequency 3 and 4, synchronisation every step): hills
+    // published through the NEW hills file after a rewrite must be picked up at the next synchronisation
+    for (int rf = 3; rf <= 4; rf++) {
+      MetaCase cr{2, 6, 1, -1, 6};
+      cr.rfreq = rf;
+      for (int pat = 0; pat < 3; pat++) {
+        std::vector<int> o;
+        for (int st = 0; st < cr.L; st++) { if (pat == 0) { o.push_back(0); o.push_back(1); } else if (pat == 1) { o.push_back(1); o.push_back(0); } }
+        if (pat == 2) { for (int st = 0; st < cr.L; st++) o.push_back(0); for (int st = 0; st < cr.L; st++) o.push_back(1); std::vector<int> o2; for (int st = 0; st < cr.L; st++) { o2.push_back(0); if (st % 2) { o2.push_back(1); o2.push_back(1); } } o2.push_back(1); o = o2; }
+        for (int e = 0; e < cr.extra; e++) { o.push_back(0); o.push_back(1); }
+        mj.push_back({cr, o, -1, -1});
+      }
+    }
     // truncated peer file: canonical alternating order; walker 1 synchronises while walker 0's hills file is cut at byte t
     MetaCase c{2, 5, 1, -1, 6};
     std::vector<int> o;
